@@ -973,13 +973,13 @@ def df(th, method, x, T):
     return None if d is None or np.ndim(d) > 0 and d.dtype == object else float(d)
 
 
-def part_thermo(ctx, res, th, system, prec, Ts, stoich=True, sfx=''):
+def part_thermo(ctx, res, th, system, prec, Ts, stoich=True, sfx='', xmax=0.1, gmax_range=(9000, 16000)):
     """sfx: appended to the violation keys of a second description of the same system (names the class: database / site
     ratios); the recorded finding about the curvature method keeps its key (same class for every database)"""
     vlib.use_repo()
     tol_off = OFFSET + 1e-3          # the documented offset plus the resolution of the sampling method
     for T in Ts:
-        gmax = ctx.rng.uniform(9000, 16000)
+        gmax = ctx.rng.uniform(*gmax_range)
         g = np.concatenate(([0.0], np.sort([ctx.rng.uniform(0, 1) ** 2 * gmax for _ in range(ctx.n(6, 12))])))
         xa, xb = th.getInterfacialComposition(T, g.copy(), precPhase=prec)
         xa = np.atleast_1d(xa).astype(float)
@@ -1010,7 +1010,7 @@ def part_thermo(ctx, res, th, system, prec, Ts, stoich=True, sfx=''):
             res.violate('sentinel-not-monotone-in-g' + sfx, 'unstable at some g but stable at a larger g', dict(desc0, g=g.tolist()), xa.tolist())
         # ---- sign change at the planar solvus, monotone in supersaturation, agreement of the methods
         rels = sorted(set([0.3, 0.8, 0.95, 1.05, 1.3, 3.0, 10.0] + [10 ** ctx.rng.uniform(-0.7, 1.3) for _ in range(ctx.n(3, 8))] + [1.004, 1.015]))
-        xs = [xeq * r for r in rels if xeq * r < 0.1]
+        xs = [xeq * r for r in rels if xeq * r < xmax]
         vals = {mth: [df(th, mth, x, T) for x in xs] for mth in METHODS}
         for j, x in enumerate(xs):
             r = x / xeq
@@ -1069,6 +1069,20 @@ def therm_alsczr():
     return _ALSCZR[0]
 
 
+_NIAL = []
+
+
+def therm_nial():
+    if not _NIAL:
+        vlib.use_repo()
+        from kawin.thermo import BinaryThermodynamics
+        with warnings.catch_warnings():
+            warnings.simplefilter('ignore')
+            th = BinaryThermodynamics(os.path.join(vlib.REPO, 'examples', 'NiCrAl.tdb'), ['NI', 'AL'], ['FCC_A1', 'FCC_L12'], drivingForceMethod='tangent')
+        _NIAL.append(th)
+    return _NIAL[0]
+
+
 def site_ratio_sum(th, prec):
     """atoms per formula unit of the precipitate description as the database writes it"""
     return float(sum(float(r) for r in th.db.phases[prec].sublattices))
@@ -1084,6 +1098,8 @@ def _system(name):
         return th, 'AL3ZR', True, ':site-ratio-sum=%g' % site_ratio_sum(th, 'AL3ZR')
     if name == 'Cu-Ti':
         return therm_cuti(), 'CU4TI', False, ''
+    if name == 'Ni-Al':
+        return therm_nial(), 'FCC_L12', False, ''
     raise KeyError(name)
 
 
@@ -1450,9 +1466,15 @@ def part_batch_real(ctx, res, system, N, cases=None):
 # part 4: MONITORED "classes above Rcrit grow, below shrink" at observer callbacks of real runs
 # =====================================================================================================
 def make_observer(res, tag, desc, stats):
+    last_bins = {}
+
     def obs(m):
         n = m.pData.n
         for p in range(len(m.phases)):
+            nb = len(m.PBM[p].PSDbounds)
+            if p in last_bins and nb != last_bins[p]:
+                stats['callbacks-right-after-grid-%s' % ('extended' if nb > last_bins[p] else 'shrunk-or-remeshed')] += 1
+            last_bins[p] = nb
             pp = m.precipitateParameters[p]
             Rc = float(m.pData.Rcrit[n, p]); dG = float(m.pData.drivingForce[n, p])
             b = np.asarray(m.PBM[p].PSDbounds, dtype=float); g = np.asarray(m.growth[p], dtype=float)
@@ -1474,6 +1496,18 @@ def make_observer(res, tag, desc, stats):
             stats['states'] += 1; stats['classes'] += len(above) + len(below)
             ba = [i for i in above if not g[i] > 0]
             bb = [i for i in below if not g[i] < 0]
+            # bounds in the sink prefix (index <= RdrivingForceIndex: their class is emptied at every step and their table entry is
+            # a copy of the first entry above) are reported under their own key when that first entry lies above Rcrit
+            rdf = int(m.RdrivingForceIndex[p]) if m.numberOfElements == 1 else -1
+            sink = [i for i in bb if i <= rdf and rdf + 1 < len(b) and b[rdf + 1] > Rc]
+            if sink:
+                stats['sink-bound-states'] += 1
+                i = sink[0]
+                res.violate('run-sink-bound-filled-from-class-above-Rcrit-grows',
+                            'a class boundary in the emptied sink prefix (index <= RdrivingForceIndex) lies below pData.Rcrit but has positive growth: its table entry is a copy of the first entry above, which lies above Rcrit',
+                            dict(desc, step=int(n), time_at_step=float(m.pData.time[n]), phase=str(m.phases[p]), Rcrit=Rc, drivingForce=dG, R=float(b[i]), class_index=i,
+                                 RdrivingForceIndex=rdf, first_unfilled_R=float(b[rdf + 1])), float(g[i]), 'growth < 0')
+                bb = [i for i in bb if i not in sink]
             if ba or bb:
                 i = (ba or bb)[0]
                 res.violate('run-%s-class-%s' % (tag, 'above-Rcrit-shrinks' if ba else 'below-Rcrit-grows'),
@@ -1489,13 +1523,23 @@ def run_case(ctx, res, cfg):
     stats = Counter()
     vb = cfg.get('vbeta_over_valpha', 1.0)            # precipitate / matrix molar volume
     if cfg['kind'] == 'binary':
-        m = kwnruns.build_binary(x0=cfg['x0'], T=cfg['T'], gamma=cfg['gamma'], site=cfg.get('site', 'dislocations'), vratio=1.0 / vb)
+        m = kwnruns.build_binary(x0=cfg['x0'], T=cfg['T'], gamma=cfg['gamma'], site=cfg.get('site', 'dislocations'), vratio=1.0 / vb, **cfg.get('pbm', {}))
     else:
         m = kwnruns.build_ternary(x0=cfg['x0'], T=cfg['T'], gamma=cfg['gamma'])
         if vb != 1.0:
             from kawin.precipitation import VolumeParameter
             m.setVolumeBeta((0.352e-9) ** 3 * vb, VolumeParameter.ATOMIC_VOLUME, 4)
     pp = m.precipitateParameters[0]
+    if cfg.get('load'):
+        # a population close to the top of the grid in a supersaturated matrix: it grows into the last class within a few steps
+        frac, amp = cfg['load']
+        m.setup()
+        r1 = frac * float(m.PBM[0].PSDbounds[-1])
+
+        def loaded(rr):
+            nn = amp * np.exp(-((rr - r1) / 0.2e-9) ** 2); nn[nn < 1] = 0
+            return nn
+        m.PBM[0].LoadDistributionFunction(loaded)
     if cfg.get('schedule'):
         kind, T1, T2, ts = cfg['schedule']
         m.setTemperature((lambda t: T1 if t < ts else T2) if kind == 'step' else (lambda t: T1 + (T2 - T1) * min(t / ts, 1.0)))
@@ -1508,7 +1552,7 @@ def run_case(ctx, res, cfg):
     with warnings.catch_warnings():
         warnings.simplefilter('ignore')
         with np.errstate(all='ignore'):
-            steps = kwnruns.run(m, cfg['time'], max_steps=cfg['steps'], observer=make_observer(res, cfg['kind'] + (':E>0' if cfg.get('E') else '') + (':Vb!=Va' if vb != 1.0 else '')
+            steps = kwnruns.run(m, cfg['time'], solver=cfg.get('solver', 'euler'), max_steps=cfg['steps'], observer=make_observer(res, cfg['kind'] + (':E>0' if cfg.get('E') else '') + (':Vb!=Va' if vb != 1.0 else '') + (':small-grid' if cfg.get('pbm') else '')
                                                                                  + (':' + cfg['shape'] if cfg.get('shape') else '')
                                                                                  + (':T-%s-%s' % (cfg['schedule'][0], 'down' if cfg['schedule'][2] < cfg['schedule'][1] else 'up') if cfg.get('schedule') else ''), cfg, stats))
     res.traces += 1
@@ -1528,6 +1572,12 @@ def part_runs(ctx, res):
                      vbeta_over_valpha=r.uniform(1.1, 1.3)))
     cfgs.append(dict(kind='ternary', x0=(0.098, 0.083), T=1073.0, gamma=0.023, time=1e4, steps=ctx.n(12, 80), vbeta_over_valpha=r.uniform(0.75, 0.9)))
     cfgs.append(dict(kind='binary', x0=4e-3, T=723.15, gamma=0.1, time=3600, steps=ctx.n(60, 400), vbeta_over_valpha=r.uniform(1.05, 1.2)))
+    # small grids: the distribution reaches the last class, so the PBM appends classes / re-meshes DURING the run and the
+    # growth field of the new grid is what the next step and getDt use (the callback sees it right after the grid change)
+    for solver in ('euler', 'rk4'):
+        cfgs.append(dict(kind='binary', x0=r.uniform(3e-3, 5e-3), T=723.15, gamma=0.1, time=3600 * 5, steps=ctx.n(150, 600), solver=solver,
+                         pbm=dict(bins=r.randint(36, 44), minBins=30, maxBins=r.randint(55, 65), cMax=r.uniform(3.6e-9, 4.4e-9)),
+                         load=(r.uniform(0.78, 0.86), 10 ** r.uniform(16.5, 19.5))))
     # non-spherical precipitates through the real _calcNucleationRate path (recorded Rcrit vs the zero of model.growth)
     cfgs.append(dict(kind='binary', x0=4e-3, T=723.15, gamma=0.1, time=3600, steps=ctx.n(60, 400), shape=r.choice(['needle', 'plate', 'cubic']),
                      ar=r.uniform(1.6, 3.0), E=r.choice([0.0, 2e7])))
@@ -1575,6 +1625,14 @@ def corr(ctx):
         Ts = [ctx.rng.uniform(580, 880) for _ in range(ctx.n(8, 40))]
         part_thermo(ctx, res, th, 'Al-Zr', 'AL3ZR', Ts)
     _guard(errors, res, 'thermo', thermo)
+
+    def thermo_nial():
+        # a binary whose solute symbol sorts BEFORE the solvent symbol (pycalphad orders components alphabetically, the user
+        # lists the solvent first): the composition index in the equilibrium records is reversed (BinaryThermodynamics.reverse)
+        th = therm_nial()
+        res.count('thermo:Ni-Al:reverse=%s' % bool(th.reverse))
+        part_thermo(ctx, res, th, 'Ni-Al', 'FCC_L12', [ctx.rng.uniform(900, 1200) for _ in range(ctx.n(4, 20))], stoich=False, xmax=0.2, gmax_range=(800, 1500))
+    _guard(errors, res, 'thermo-NiAl', thermo_nial)
     _guard(errors, res, 'extra-gibbs-model', lambda: part_extra_model(ctx, res))
     _guard(errors, res, 'thermo-second-database', lambda: part_second_database(ctx, res))
     _guard(errors, res, 'dispatch', lambda: part_dispatch(ctx, res, ctx.n(1500, 20000)))
